@@ -1,6 +1,7 @@
 from vf import Query
 
 SRC = ["src/kernel/activity/SemaphoreImpl.cpp", "src/kernel/activity/ActivityImpl.cpp", "src/kernel/actor/SynchroObserver.cpp", "src/kernel/actor/SimcallObserver.cpp"]
+THOROUGH_MAX = 50  # all quick shapes + a fixed strided sample of the other thorough shapes (lib/vf.py)
 META = {
     "bounds": "queued acquirers 0..3 (quick: 0..2), each blocked in wait_for or only acquire_async-ed, with or without a timeout action; free tokens symbolic over "
               "the full unsigned range (0 when somebody waits; < 2^32-1 for release); ops: acquire_async(+wait_for), release, timeout of the k-th waiter; unwind 8",
